@@ -82,7 +82,9 @@ def _install():
         if bad:
             kinds = sorted({b["kind"] for b in bad})
             w = CTX.get("where") or {}
-            mon.fail("F-CONTRACT-CHAIN" if (where == "generate_mesh" and w.get("chain")) else "inconsistent-mesh:" + where, "mesh is internally consistent after " + where, kinds=kinds,
+            lvl = w.get("chain") or 0
+            known_chain = where == "generate_mesh" and (lvl == 3 or (lvl == 2 and set(kinds) <= {"cycle-edge"}))
+            mon.fail("F-CONTRACT-CHAIN" if known_chain else "inconsistent-mesh:" + where, "mesh is internally consistent after " + where, kinds=kinds,
                      first=bad[:3], ctx=CTX.get("where"))
 
     def mesh_consistent_after_resampling(result):
@@ -120,16 +122,14 @@ def _install():
 
 
 def _has_chain(v, e, c, ne):
-    """two-point border interfaces that share a vertex (their contraction is undefined: known finding F-CONTRACT-CHAIN)"""
+    """3: a run of three or more two-point border interfaces or a closed ring of them (their contraction is undefined: known
+    finding F-CONTRACT-CHAIN, any symptom); 2: only runs of two - the known symptom there is a cell outline with two consecutive
+    vertices no longer joined by an edge (seen on raw rasters), nothing else is excused, in particular no exception; 0: none"""
     from fv.oracle import topo
     t = topo.Topo(v, e, c)
-    cnt = {}
-    for vp, ep in t.paths:
-        if len(vp) == 2 and len(vp) <= ne and len(t.vcells[vp[0]]) < 3 and len(t.vcells[vp[1]]) < 3 \
-                and len(t.vcells[vp[0]] & t.vcells[vp[1]]) < 2:
-            for x in vp:
-                cnt[x] = cnt.get(x, 0) + 1
-    return any(n > 1 for n in cnt.values())
+    if topo.contraction_chain(t, ne):
+        return 3
+    return 2 if topo.contraction_chain(t, ne, min_interfaces=2) else 0
 
 
 def _sequence(rng, v, e, c, mon, hist, label, allow_contract=True):
@@ -161,7 +161,9 @@ def _sequence(rng, v, e, c, mon, hist, label, allow_contract=True):
                 # the call mutated its inputs before failing: nothing more can be said about this mesh.
                 hist["generate_mesh-raised-artifact"] = hist.get("generate_mesh-raised-artifact", 0) + 1
                 ops[-1].append("raised")
-                mon.fail("F-CONTRACT-CHAIN" if chain else "resample-raises", "resampling yields a mesh", ne=ne, rse=rse,
+                # runs of two: the known failure is an IndexError in the contraction bookkeeping, any other exception is new
+                mon.fail("F-CONTRACT-CHAIN" if (chain == 3 or (chain == 2 and isinstance(exc, IndexError))) else "resample-raises",
+                         "resampling yields a mesh", ne=ne, rse=rse,
                          chain=chain, label=label, exc=repr(exc)[:160])
                 return ops, sched, 0, 0
             finally:
@@ -284,7 +286,9 @@ def run_case(case):
                 from fv.gen import raster
                 tmpdir = tempfile.mkdtemp(prefix="fv-c09-")
                 atexit.register(_sh.rmtree, tmpdir, True)
-                ring = case["seed"][2] % 3 == 2     # debris: a free closed ring that shares nothing with the tissue
+                # debris: a free closed ring that shares nothing with the tissue (thinned images only: the corners of an
+                # un-thinned ring are neither minimal nor junction artefacts, i.e. not a skeleton the parser is specified for)
+                ring = (not case["raw"]) and (case["seed"][2] // 2) % 2 == 1
                 img, info = raster.voronoi_image(rng, ncells=int(rng.integers(4, 30)), clean=not case["raw"], ring=ring)
                 hist["raster-with-free-ring"] = hist.get("raster-with-free-ring", 0) + int(ring)
                 path = os.path.join(tmpdir, "t.tif")
